@@ -248,7 +248,7 @@ def atom_token(x) -> str:
   if isinstance(x, bool):
     return f'bool:{x}'
   if isinstance(x, int):
-    return f'int:{x}'
+    return f'int:{x:x}'        # hex: no digit limit for huge ints
   if isinstance(x, float):
     return f'float:{x!r}'
   if isinstance(x, complex):
